@@ -44,7 +44,7 @@ func genC07(t *rapid.T) C07Case {
 	c.BigRG = rapid.IntRange(0, 3).Draw(t, "bigRG") == 0
 	m := rapid.IntRange(1, h.Scale(20, 30)).Draw(t, "nReq")
 	for i := 0; i < m; i++ {
-		r := CCR{Acct: rapid.SampledFrom([]int{0, 0, 0, 1, 1, 2, 3, -1, -2}).Draw(t, "acct")}
+		r := CCR{Acct: rapid.SampledFrom([]int{0, 0, 0, 1, 1, 2, 3, -1, -2, -4, -5}).Draw(t, "acct")}
 		if r.Acct >= n {
 			r.Acct = 0
 		}
@@ -124,6 +124,14 @@ func judgeC07(c C07Case) *h.Verdict {
 			supi, rg = accts[idx].supi, accts[idx].rg
 		case idx == -1:
 			supi = "imsi-80000" + fmt.Sprint(100000+step)
+		case idx == -4:
+			// an unknown subscriber whose identifier is related to a known one: the known subscriber's whole SUPI as
+			// the IMSI data ("imsi-" + digits: the server's key would be imsi-imsi-...), or its digits plus one more
+			supi, rg = "imsi-"+accts[0].supi, accts[0].rg
+			v.Label("unknown-but-related-identifier")
+		case idx == -5:
+			supi, rg = accts[0].supi+"0", accts[0].rg
+			v.Label("unknown-but-related-identifier")
 		default:
 			supi, rg = accts[0].supi, 9
 		}
